@@ -13,43 +13,52 @@ import pickle
 from .common import Ctx, Driver, CORPUS
 
 MANIFEST = dict(
-    text=("Lean theorems over trees whose nodes, attribute dicts and attribute value lists carry object identities, for all "
-          "trees, receivers, contexts and allocator states: the event-stream/tag-stack loop of Tag.__deepcopy__ never underflows "
-          "and returns exactly the pre-order recursion (copy_refines, copy_soup_refines); erasing identities the copy is the "
-          "original: names, prefixes, namespaces, attributes in order, value-list classes, string classes, every setting incl. "
-          "hidden/sourceline/sourcepos/_is_xml (copy_same_shape, copy_soup_same_shape); its identities are exactly the next "
-          "unused ones, each once (copy_ids_exact, copy_fresh), hence disjoint from every existing tree and its root is in no "
-          "contents list (copy_disjoint, copy_detached); frame lemma for in-place mutations (attribute write/delete, value-list "
-          "change, rename, insert, clear, remove, replace) and independence in both directions (edit_frame, copy_independent); "
-          "the mirror of Tag.__eq__ decides the structural relation 'same name, same attribute map, pairwise equal children, "
-          "strings by text' (eq_iff_structural, eqSpec_tag/str/tag_str, canonL_eq_iff), is reflexive/symmetric/transitive and "
-          "blind to identities, position, classes, prefix, settings (eq_refl/symm/trans, ne_iff_not_eq, eq_depends_on_canon_only), "
-          "attribute order is irrelevant (attr_order_irrelevant); equal trees have equally many nodes, so == never identifies a tag "
-          "with one of its descendants and _event_stream's structural parent test pops like the identity test (eq_same_size, "
-          "eq_never_confuses_ancestor_and_descendant); a copy equals its original and everything the original equals, "
-          "and hashes like it under every identity-blind renderer (copy_eq, copy_eq_class, copy_hash); witness that == does not "
-          "determine hash (hash_is_not_a_function_of_eq); the model's reading of Tag.copy_self / Tag.__init__ / "
-          "BeautifulSoup.copy_self is pinned to the live source by generated tables (copy_self_source, "
-          "copy_self_forwards_every_param, soup_copy_self_source). Tie: every element of generated/parsed/edited trees x "
-          "copy.copy/deepcopy/__copy__ against the property oracle and the Lean mirror + recursion (identity numbering), "
-          "_event_stream against the recursive event list, single edits on copy resp. original with full re-inspection of the "
-          "other side (and against applyEdit); histories observe-edit-observe: every node of document and copy is hashed / rendered "
-          "/ compared BEFORE the edit, afterwards the edited side must be indistinguishable (hash, renderings, text, _is_xml) from "
-          "a never-observed twin with the same history, == must still be the structural relation, and fresh copies of the edited "
-          "element, its parent and the root must again be equal, render and hash alike (exposes per-object caches); == / != / hash on all pairs of pools of near-identical trees against an "
-          "independent structural evaluator and eqImpl, exhaustive small trees with repeated identical sub-structure, pickle "
-          "round trips of documents, tags and strings against decode()+re-parse."),
+    text=("Lean theorems over trees whose nodes, attribute dicts and attribute value lists carry object identities (attribute keys: str "
+          "or NamespacedAttribute; values: str of any class incl. Charset/ContentMetaAttributeValue, lists of any class, int/bool/None; "
+          "dict classes AttributeDict/HTMLAttributeDict/XMLAttributeDict with their __setitem__ processing), for all trees, receivers, "
+          "contexts and allocator states: the event-stream/tag-stack loop of Tag.__deepcopy__ never underflows and returns exactly the "
+          "pre-order recursion (copy_refines, copy_soup_refines, copy_root_is_copy_self); erasing identities the copy is the original: "
+          "names, prefixes, namespaces, attributes in order with key kinds, value classes and the dict class, string classes, every "
+          "setting incl. hidden/sourceline/sourcepos/_is_xml (copy_same_shape, copy_renders_identically, copy_soup_same_shape) under "
+          "the hypothesis that every dict holds values its own class stores unchanged — proved for plain dicts, for strings/lists in "
+          "any dict, and for anything stored through __setitem__ (settled_of_plain_dict, settled_of_str_list, setitem_idempotent with "
+          "its one exception witnessed); the repaired copy_self against the 4.13.0 one (old_copy_self_coerces, new_copy_self_keeps, "
+          "old_new_agree); the copy's identities are exactly the next unused ones, each once (copy_ids_exact, copy_fresh), hence disjoint "
+          "from every existing tree and its root is in no contents list (copy_disjoint, copy_detached); frame lemma for in-place "
+          "mutations and whole histories of them, independence in both directions (edit_frame, edits_frame, copy_independent, "
+          "copy_independent_history); the mirror of Tag.__eq__ decides the structural relation 'same name, same attribute map, pairwise "
+          "equal children, strings by text' (eq_iff_structural, eqSpec_tag/str/tag_str, canonL_eq_iff), is reflexive/symmetric/transitive "
+          "and blind to identities, position, classes, prefix, settings (eq_refl/symm/trans, ne_iff_not_eq, eq_depends_on_canon_only), "
+          "attribute order is irrelevant for == and for hash (attr_order_irrelevant, hash_attr_order_irrelevant); equal trees have equally "
+          "many nodes, so == never identifies a tag with one of its descendants and _event_stream's structural parent test pops like the "
+          "identity test (eq_same_size, eq_never_confuses_ancestor_and_descendant); a copy equals its original and everything the "
+          "original equals, and hashes like it under every identity-blind renderer (copy_eq, copy_eq_class, copy_hash); == implies equal "
+          "hashes exactly when the trees also agree in what == ignores (eq_hash_consistent; hash_is_not_a_function_of_eq is the witness "
+          "that it does not in general); BeautifulSoup.copy_self's document-level fields (soup_copy_info/idempotent/exact, "
+          "soup_pickle_info); pickling as a state machine: every generation is feed(decode(current tree)) whatever markup the object "
+          "still holds (pickle_generation, pickle_edit_pickle); the model's reading of Tag.copy_self / Tag.__init__ / "
+          "BeautifulSoup.copy_self / __getstate__ / __setstate__ is pinned to the live source by generated tables compared in full "
+          "(copy_self_source, copy_self_forwards_every_param, soup_copy_self_source, pickle_source). Tie: every element of "
+          "generated/parsed/edited trees x copy.copy/deepcopy/__copy__/copy_self() against the property oracle and the Lean mirror + "
+          "recursion (identity numbering), _event_stream against the recursive event list, __setitem__ of the three dict classes against "
+          "coerce, single edits on copy resp. original with full re-inspection of the other side (and against applyEdit); histories "
+          "observe-edit-observe with never-observed twins and copies after edits (exposes per-object caches); == / != / hash on all pairs "
+          "of pools of near-identical trees (22 kinds of variant) against an independent structural evaluator and eqImpl; exhaustive small "
+          "trees with repeated identical sub-structure; document-level fields of copied/pickled BeautifulSoup objects; pickle round trips "
+          "and pickle/edit/copy histories of documents, tags and strings against decode()+re-parse of the current tree."),
     design="7/C12",
-    note=("Pickling is checked on real objects only (BeautifulSoup: decode + re-parse through __getstate__/__setstate__; Tag: default "
-          "pickling of the linked structure, recursion-bound, small documents only) — no Lean statement. That _event_stream yields the "
-          "balanced event list of the tree rests on C01/C02's chain invariant and is compared on every case. Builder-level setting "
-          "objects (cdata_list_attributes, preserve_whitespace_tags, interesting_string_types, _namespaces) and the TreeBuilder of a "
-          "BeautifulSoup are shared between copy and original by design and not counted as mutable state of the tree. A copy does not "
-          "keep parser_class, the class of the attrs dict and attribute_value_list_class (recorded quirk; nothing compares or renders "
-          "them). Attributes set on the BeautifulSoup object itself are outside the quantifier (documented as having none). "
-          "Known finding: non-string attribute values (int/float/bool/None stored raw in a plain AttributeDict) are coerced or "
-          "dropped by the copy's HTMLAttributeDict."),
-    technique="Lean 4 refinement proof (stack machine = recursion), freshness/frame lemmas, decision-procedure correctness for == + differential correspondence + direct Python oracle",
+    note=("Pickling: the Lean statement is generic in decode/feed (what feed(decode(t)) is, is C05); that unpickled objects are new "
+          "objects, and Tag/NavigableString pickling (default pickling of the linked structure, recursion-bound, small documents only) are "
+          "checked on real objects only. That _event_stream yields the balanced event list of the tree rests on C01/C02's chain invariant "
+          "and is compared on every case. Builder-level setting objects (cdata_list_attributes, preserve_whitespace_tags, "
+          "interesting_string_types, _namespaces) and the TreeBuilder of a BeautifulSoup are shared between copy and original by design "
+          "and not counted as mutable state of the tree. A copy does not keep parser_class and attribute_value_list_class; a copied "
+          "BeautifulSoup does not keep parse_only, element_classes, declared_html_encoding, contains_replacement_characters (recorded, "
+          "modelled, compared; nothing compares or renders them). Attributes set on the BeautifulSoup object itself are outside the "
+          "quantifier (documented as having none). float attribute values are checked by the oracle only (the model has int/bool/None). "
+          "Values put into an HTML/XMLAttributeDict behind its back (dict.update) are processed by the copy: modelled and compared, outside "
+          "the property. Repaired defect: C12-copy-coerces-nonstring-attr (copy_self re-processed the values of a plain dict)."),
+    technique="Lean 4 refinement proof (stack machine = recursion), freshness/frame lemmas, decision-procedure correctness for ==, hash consistency + differential correspondence + direct Python oracle",
 )
 
 STR_CLASSES = ["NavigableString", "PreformattedString", "CData", "ProcessingInstruction", "XMLProcessingInstruction",
@@ -57,6 +66,7 @@ STR_CLASSES = ["NavigableString", "PreformattedString", "CData", "ProcessingInst
                "RubyParenthesisString", "SubNS", "SubComment"]
 LIST_CLASSES = ["AttributeValueList", "list", "MyAVL"]
 DICT_CLASSES = ["AttributeDict", "HTMLAttributeDict", "XMLAttributeDict", "MyDict"]
+STRVAL_CLASSES = ["str", "CharsetMetaAttributeValue", "ContentMetaAttributeValue", "SubStrVal"]
 
 _E = {}
 
@@ -91,7 +101,12 @@ def E():
           "XMLAttributeDict": el.XMLAttributeDict, "MyDict": mk("MyDict", el.AttributeDict)}
     _E["dcls"] = dc
     _E["dictcode"] = {dc[n]: i for i, n in enumerate(DICT_CLASSES)}
+    sv = {"str": str, "CharsetMetaAttributeValue": el.CharsetMetaAttributeValue,
+          "ContentMetaAttributeValue": el.ContentMetaAttributeValue, "SubStrVal": mk("SubStrVal", str)}
+    _E["svcls"] = sv
+    _E["svcode"] = {sv[n]: i for i, n in enumerate(STRVAL_CLASSES)}
     _E["SubSoup"] = mk("SubSoup", bs4.BeautifulSoup)
+    _E["MyTag"] = mk("MyTag", el.Tag)
     _E["parsercode"] = {bs4.BeautifulSoup: 0, _E["SubSoup"]: 1}
     return _E
 
@@ -198,7 +213,11 @@ def gen_markup(r, big=False):
             elif k < 0.48:
                 out.append(f"<{r.choice(VOID)}{attrs()}{r.choice(['', '/'])}>")
                 last_text = False
-            elif k < 0.53:
+            elif k < 0.50:
+                out.append(r.choice(['<meta charset="utf8">', '<meta http-equiv="Content-type" content="text/html; charset=ISO-8859-1">',
+                                     '<meta content="x; charset=koi8-r" name="n">']))
+                last_text = False
+            elif k < 0.55:
                 nm = r.choice(["script", "style"])
                 out.append(f"<{nm}{attrs()}>{'x<y' if r.random() < 0.7 else ''}</{nm}>")
                 last_text = False
@@ -250,9 +269,15 @@ def setting_obj(kind, i):
 
 
 def make_value(vd):
-    """['s', text] | ['l', list class name, [items]]"""
+    """['s', text] | ['l', list class name, [items]] | ['sc', str class name, text] | ['i', int] | ['b', bool] | ['n'] | ['f', float]"""
     if vd[0] == "s":
         return vd[1]
+    if vd[0] == "sc":
+        return E()["svcls"][vd[1]](vd[2])
+    if vd[0] in ("i", "b", "f"):
+        return vd[1]
+    if vd[0] == "n":
+        return None
     return E()["lcls"][vd[1]](vd[2])
 
 
@@ -276,9 +301,13 @@ def make_bare_tag(d):
                       namespaces=setting_obj("nsmap", d.get("nsmap", 0)))
 
 
-def rand_value(r):
+def rand_value(r, scalars=True):
     k = r.random()
-    if k < 0.5:
+    if scalars and k < 0.12:
+        return r.choice([["i", 2], ["i", 0], ["i", -17], ["i", 10 ** 20], ["b", True], ["b", False], ["n"], ["i", 1]])
+    if k < 0.2:
+        return ["sc", r.choice(STRVAL_CLASSES[1:]), r.choice(["utf8", "text/html; charset=latin-1", "", "x y"])]
+    if k < 0.55:
         return ["s", r.choice(["v", "", "a b", "é", "x&y", "<q>"])]
     return ["l", r.choice(LIST_CLASSES), r.choice([[], ["a"], ["a", "b"], ["b", "a"], ["x", "", "y"], ["é"]])]
 
@@ -314,7 +343,10 @@ def rand_bare(r, label):
             if ks in seen:
                 continue
             seen.add(ks)
-            d["attrs"].append([k, rand_value(r)])
+            v = rand_value(r)
+            if not isinstance(k, str) and k[2] is None and v[0] == "b":
+                v = ["s", "v"]   # see apply_op/setattr: the one unsettled value an HTMLAttributeDict produces itself
+            d["attrs"].append([k, v])
     return d
 
 
@@ -384,6 +416,8 @@ def apply_op(root, op, soup=None):
         t = tagnode(ti)
         if t is None or is_soup(t):
             return False
+        if not isinstance(k, str) and k[2] is None and v[0] == "b":
+            return False    # HTMLAttributeDict turns True into key.name = None, a value it would itself refuse (unsettled)
         t[make_key(k)] = make_value(v)
         return True
     if kind == "delattr":
@@ -724,15 +758,34 @@ def val_tok(reg, v):
             raise Unrepresentable("list class / item")
         return f"l:{reg.oid(v)}:{e['listcode'][type(v)]}:" + "|".join(ptok(raw(x)) for x in v)
     if isinstance(v, str):
-        return "s:" + ptok(raw(v))
+        c = e["svcode"].get(type(v))
+        if c is None:
+            raise Unrepresentable("str class of an attribute value")
+        return f"s:{c}:" + ptok(raw(v))
+    if v is None:
+        return "n"
+    if isinstance(v, bool):
+        return "b:1" if v else "b:0"
+    if isinstance(v, int):
+        return f"i:{v}"
     raise Unrepresentable(f"attribute value {type(v).__name__}")
+
+
+def key_tok(k):
+    NA = E()["el"].NamespacedAttribute
+    if type(k) is str:
+        return ptok(k)
+    if type(k) is NA:
+        f = lambda x: "N" if x is None else ptok(x)
+        return f"{ptok(raw(k))}~{f(k.prefix)}~{f(k.name)}~{f(k.namespace)}"
+    raise Unrepresentable("attribute key class")
 
 
 def tag_head(reg, t, nkids=None):
     e = E()
     i = reg.oid(t)
     if t.attrs:
-        att = ";".join(f"{ptok(raw(k))}={val_tok(reg, v)}" for k, v in t.attrs.items())
+        att = ";".join(f"{key_tok(k)}={val_tok(reg, v)}" for k, v in t.attrs.items())
     else:
         att = "-"
     st = ".".join([ob(t.can_be_empty_element), reg.sid(t.cdata_list_attributes), reg.sid(t.preserve_whitespace_tags),
@@ -795,7 +848,7 @@ def shape(n):
             att.append((kk, "list", type(v), [(type(x), x) for x in v]))
         else:
             att.append((kk, "val", type(v), v if not isinstance(v, str) else raw(v)))
-    return ("T", type(n), raw(n.name), n.prefix, n.namespace, att, n.can_be_empty_element, setting_key(n.cdata_list_attributes),
+    return ("T", (type(n), type(n.attrs)), raw(n.name), n.prefix, n.namespace, att, n.can_be_empty_element, setting_key(n.cdata_list_attributes),
             setting_key(n.preserve_whitespace_tags), setting_key(n.interesting_string_types), bool(n.hidden), n.sourceline,
             n.sourcepos, n._is_xml, setting_key(n._namespaces or None), [shape(k) for k in n.contents])
 
@@ -805,7 +858,7 @@ def shape_diff(a, b, path="r"):
     if a[0] != b[0]:
         return f"{path}: kind {a[0]} vs {b[0]}"
     names = (["kind", "class", "text"] if a[0] == "S" else
-             ["kind", "class", "name", "prefix", "namespace", "attrs", "can_be_empty_element", "cdata_list_attributes",
+             ["kind", "class (of the tag, of its attrs dict)", "name", "prefix", "namespace", "attrs", "can_be_empty_element", "cdata_list_attributes",
               "preserve_whitespace_tags", "interesting_string_types", "hidden", "sourceline", "sourcepos", "_is_xml", "_namespaces"])
     for i, nm in enumerate(names):
         if a[i] != b[i]:
@@ -1054,7 +1107,7 @@ def first_diff(a: str, b: str):
 def check_receiver(ctx, batch, recipe, world, el, path, how, stream, tree_id, ri):
     """copy one element: oracle + model. Returns the copy (or None)."""
     case = {"op": "copy", "recipe": recipe, "path": list(path), "how": how}
-    kf = "C12-copy-coerces-nonstring-attr" if nonstr_attr(el) else None
+    kf = None
     kind = "soup" if is_soup(el) else ("tag" if is_tag(el) else "str:" + type(el).__name__)
     ctx.count("receiver:" + kind)
     ctx.count("how:" + how)
@@ -1124,6 +1177,19 @@ def check_receiver(ctx, batch, recipe, world, el, path, how, stream, tree_id, ri
                       "Lean code-mirror copyImpl and implementation disagree", stream)
             batch.add(f"c12 copyspec {root_inh} {nxt} {ptxt} {wd}", expected, case,
                       "Lean recursion copySpec and implementation disagree", stream)
+            if is_tag(el) and ri % 3 == 0:
+                # the public first step on its own: a clone without contents
+                reg2 = Reg()
+                wd2 = dump(reg2, world)
+                nxt2 = reg2.next
+                c0 = el.copy_self()
+                cd0 = dump(reg2, c0)
+                ctx.count("copy_self:calls")
+                if c0.contents or c0.parent is not None or c0.next_element is not None:
+                    ctx.violation("copy_self() gives a clone that has contents or is attached", case=case | {"op": "copy_self"},
+                                  expected="empty, detached", observed=c0.decode(), stream=stream)
+                batch.add(f"c12 copyself {root_inh} {nxt2} {ptxt} {wd2}", f"{reg2.next} {cd0}", case | {"op": "copy_self"},
+                          "Lean copySelf and Tag.copy_self() disagree", stream)
         if is_tag(el):
             batch.add(f"c12 events {root_inh} {ptxt} {wd}", ev_real, case | {"op": "events"},
                       "Lean event list and _event_stream disagree", stream, norm=norm_events)
@@ -1182,7 +1248,8 @@ def model_edit_line(reg, prep, op):
     """after the real edit: the protocol line (new objects have their identities now)"""
     kind, t = prep["kind"], prep["tag"]
     if kind == "setattr":
-        e = f"setattr {reg.oid(t)} {ptok(raw(prep['key']))} {val_tok(reg, t[prep['key']])}"
+        vin = val_tok(reg, t[prep['key']]) if op[3][0] == "l" else val_tok(reg, make_value(op[3]))
+        e = f"setattr {reg.oid(t)} {key_tok(prep['key'])} {vin}"
     elif kind == "delattr":
         e = f"delattr {reg.oid(t)} {ptok(raw(prep['key']))}"
     elif kind == "list_append":
@@ -1216,7 +1283,7 @@ def check_edit(ctx, batch, recipe, path, how, side, op, stream, tree_id, primed=
         observe(c)
         c == el, el == c, hash(c) == hash(el)
     case = {"op": "edit", "recipe": recipe, "path": list(path), "how": how, "side": side, "edit": op, "primed": primed}
-    kf = "C12-copy-coerces-nonstring-attr" if nonstr_attr(el) else None
+    kf = None
     target, other = (c, world) if side == "copy" else (el, c)
     before = full_dump(other)
     prep = None
@@ -1343,8 +1410,12 @@ def eq_spec(a, b):
         for k, v in t.attrs.items():
             if isinstance(v, list):
                 out.append((raw(k), "l", tuple(raw(x) for x in v)))
-            else:
+            elif isinstance(v, str):
                 out.append((raw(k), "s", (raw(v),)))
+            elif v is None:
+                out.append((raw(k), "none", ()))
+            else:
+                out.append((raw(k), "num", (repr(v + 0),)))    # numbers compare as numbers: True == 1, 2 == 2.0 is not generated
         return sorted(out)
     if raw(a.name) != raw(b.name) or amap(a) != amap(b) or len(a.contents) != len(b.contents):
         return False
@@ -1371,6 +1442,12 @@ def variant(r, base_recipe, k):
         "wrap": ["wrap", ni, "div"],
         "list-class": None,
         "str-vs-list": None,
+        "tag-class": None,
+        "name-case": None,
+        "attr-key-case": None,
+        "attr-value-space": None,
+        "string-unicode": None,
+        "attr-scalar": None,
     }
     return k, ops[k]
 
@@ -1423,10 +1500,61 @@ def apply_variant(r, root, k, op):
         v = t.attrs[kk]
         dict.__setitem__(t.attrs, kk, " ".join(v) if isinstance(v, list) else e["el"].AttributeValueList([raw(v)]))
         return True
+    if k == "tag-class":
+        # the same tag as an instance of a Tag subclass: the class is not part of the relation
+        ts = [t for t in tags if t is not root and type(t) is e["Tag"]]
+        if not ts:
+            return False
+        t = r.choice(ts)
+        m = e["MyTag"](None, None, t.name, t.namespace, t.prefix, None)
+        for kk, vv in t.attrs.items():
+            dict.__setitem__(m.attrs, kk, vv)
+        t.replace_with(m)
+        for kid in list(t.contents):
+            m.append(kid.extract())
+        return True
+    if k == "name-case":
+        t = r.choice(tags)
+        if t.name == t.name.upper():
+            return False
+        t.name = t.name.upper()
+        return True
+    if k == "attr-key-case":
+        ts = [(t, kk) for t in tags for kk in t.attrs if type(kk) is str and kk != kk.upper()]
+        if not ts:
+            return False
+        t, kk = r.choice(ts)
+        items = [(a.upper() if a is kk else a, b) for a, b in t.attrs.items()]
+        if len({raw(a) for a, _ in items}) != len(items):
+            return False
+        t.attrs.clear()
+        for a, b in items:
+            dict.__setitem__(t.attrs, a, b)
+        return True
+    if k == "attr-value-space":
+        ts = [(t, kk) for t in tags for kk, vv in t.attrs.items() if type(vv) is str]
+        if not ts:
+            return False
+        t, kk = r.choice(ts)
+        dict.__setitem__(t.attrs, kk, t.attrs[kk] + r.choice([" ", "\u00a0", "\n"]))
+        return True
+    if k == "string-unicode":
+        if not strs:
+            return False
+        s_ = r.choice(strs)
+        s_.replace_with(type(s_)(raw(s_) + r.choice(["\U0001f600", "\ud800", "\x00", "e\u0301", "\u00e9", "\u212b", "\u00c5"])))
+        return True
+    if k == "attr-scalar":
+        ts = [t for t in tags if type(t.attrs) is e["el"].AttributeDict]
+        if not ts:
+            return False
+        t = r.choice(ts)
+        dict.__setitem__(t.attrs, "sc", r.choice([1, True, 2, None, "1", "True", 0, False, ["1"]]))
+        return True
     raise ValueError(k)
 
 
-VARIANTS = ["rename", "attr-value", "attr-del", "list-append", "child-removed", "child-added", "tag-added", "string-class",
+VARIANTS = ["tag-class", "name-case", "attr-key-case", "attr-value-space", "string-unicode", "attr-scalar", "rename", "attr-value", "attr-del", "list-append", "child-removed", "child-added", "tag-added", "string-class",
             "string-text", "attr-order", "move", "prefix", "hidden", "wrap", "list-class", "str-vs-list"]
 
 
@@ -1702,8 +1830,9 @@ def stream_small(ctx, batch, max_nodes):
 
 
 def stream_nonstring(ctx):
-    """known finding: raw non-string attribute values are coerced / dropped by the copy's HTMLAttributeDict"""
-    for v in (2, 1.5, True, False, None, 0):
+    """repaired defect C12-copy-coerces-nonstring-attr: raw non-string attribute values of a parsed tag (plain AttributeDict)
+    were coerced / dropped by the copy's HTMLAttributeDict"""
+    for v in (2, 1.5, True, False, None, 0, -3, 10 ** 30, float("inf")):
         recipe = {"markup": '<a id="1">x</a>', "config": "default", "ops": []}
         soup = build(recipe)
         soup.a["k"] = v
@@ -1714,7 +1843,142 @@ def stream_nonstring(ctx):
             ctx.violation("copy of a tag holding a non-string attribute value differs from the original",
                           case={"op": "nonstring", "value": repr(v)}, expected=f"== and {soup.a.decode()}",
                           observed=f"=={c == soup.a} and {c.decode()}", stream="nonstring-attr",
-                          kf="C12-copy-coerces-nonstring-attr" if nonstr_attr(soup.a) else None)
+                          kf=None)
+
+
+def stream_setitem(ctx, batch):
+    """`d[key] = value` of AttributeDict / HTMLAttributeDict / XMLAttributeDict against the Lean `coerce`, over every kind of
+    key and value the model knows; and the copy of a tag whose dict was filled behind its back (dict.update), which the model
+    predicts (values an HTML/XMLAttributeDict would not have stored are processed by the copy) but the property does not cover"""
+    e = E()
+    NA = e["el"].NamespacedAttribute
+    keys = ["k", "class", NA("xlink", "href", "http://x"), NA("xml", None), NA(None, "nm", None), NA("p", "", "u")]
+    vals = [["s", "v"], ["s", ""], ["sc", "CharsetMetaAttributeValue", "utf8"], ["sc", "ContentMetaAttributeValue", "text/html; charset=x"],
+            ["sc", "SubStrVal", "q"], ["l", "AttributeValueList", ["a", "b"]], ["l", "list", []], ["l", "MyAVL", ["x"]],
+            ["i", 0], ["i", 1], ["i", 2], ["i", -17], ["i", 10 ** 25], ["b", True], ["b", False], ["n"]]
+    n = 0
+    for ci, cname in enumerate(DICT_CLASSES[:3]):
+        for k in keys:
+            for vd in vals:
+                d = e["dcls"][cname]()
+                v = make_value(vd)
+                d[k] = v
+                reg = Reg()
+                real = val_tok(reg, d[k]) if k in d else "drop"
+                vin = val_tok(Reg(), v)
+                if vd[0] == "l":   # the very same list object is stored: identities agree by construction
+                    real = val_tok(Reg(), d[k])
+                case = {"op": "setitem", "dict": cname, "key": [str(k), getattr(k, "prefix", None), getattr(k, "name", None),
+                                                                  getattr(k, "namespace", None), type(k).__name__], "value": vd}
+                ctx.case(("setitem", cname, str(k), json.dumps(vd)))
+                n += 1
+                batch.add(f"c12 setitem {ci} {key_tok(k)} {vin}", real, case, "Lean coerce and AttributeDict.__setitem__ disagree", "setitem")
+                # idempotence where the model proves it (setitem_idempotent)
+                if k in d and not (cname == "HTMLAttributeDict" and d[k] is None):
+                    d2 = e["dcls"][cname]()
+                    d2[k] = d[k]
+                    if k not in d2 or d2[k] is not d[k] and d2[k] != d[k]:
+                        ctx.violation("a stored attribute value is not stored unchanged when set again", case=case, expected=repr(d[k]),
+                                      observed=repr(d2.get(k)), stream="setitem")
+    ctx.count("setitem:cases", n)
+    ctx.exhaustive_parts.append(f"setitem: 3 dict classes x {len(keys)} kinds of key x {len(vals)} kinds of value against the Lean coerce")
+    # unsettled dicts: model only
+    for cname, xml in (("HTMLAttributeDict", None), ("XMLAttributeDict", True)):
+        for vd in vals:
+            for k in keys[:4]:
+                t = e["Tag"](name="a", is_xml=xml, attrs={"id": "1"})
+                dict.__setitem__(t.attrs, k, make_value(vd))
+                try:
+                    reg = Reg()
+                    wd = dump(reg, t)
+                    nxt = reg.next
+                    c = copy.copy(t)
+                    cd = dump(reg, c)
+                    expected = f"{reg.next} {cd}"
+                except Unrepresentable:
+                    continue
+                ctx.case(None)
+                ctx.count("setitem:unsettled-copies")
+                batch.add(f"c12 copy {inh_of(t)} {nxt} r {wd}", expected, {"op": "unsettled", "dict": cname, "key": str(k), "value": vd},
+                          "Lean copyImpl and the copy of a tag with an unsettled attribute dict disagree", "setitem")
+
+
+def soup_tokens(reg, s):
+    f = lambda x: "N" if x is None else ptok(x)
+    return " ".join([str(reg.oid(s.builder)), ob(bool(s.builder.is_xml)), ob(bool(s.is_xml)),
+                     "N" if s.parse_only is None else str(reg.oid(s.parse_only)),
+                     "N" if not s.element_classes else str(reg.oid(s.element_classes)),
+                     f(s.original_encoding), f(s.declared_html_encoding), ob(bool(s.contains_replacement_characters))])
+
+
+def stream_soupinfo(ctx, batch):
+    """the document-level fields of a BeautifulSoup object under copy (against the Lean soupCopySelf) and under pickling:
+    builder reuse, is_xml, parse_only, element_classes, original_encoding, declared_html_encoding, contains_replacement_characters"""
+    e = E()
+    import logging
+    from bs4 import SoupStrainer
+    logging.getLogger("bs4.dammit").setLevel(logging.ERROR)    # "Some characters could not be decoded" is expected here
+    BS = e["BeautifulSoup"]
+    body = '<html><head><meta charset="%s"><title>t</title></head><body><p class="a b">caf\xe9 %s</p><!--c--></body></html>'
+    inputs = []
+    for enc in ("latin-1", "utf-8", "windows-1252", "koi8-r"):
+        try:
+            inputs.append((f"bytes/{enc}", (body % (enc, "x")).encode(enc), {}))
+        except UnicodeEncodeError:
+            inputs.append((f"bytes/{enc}", (body % (enc, "x")).replace("\xe9", "e").encode(enc), {}))
+    inputs.append(("str", body % ("utf-8", "y"), {}))
+    inputs.append(("bytes/replacement", b"<p>\xff\xfe\x81\x8d caf\xc3\xa9</p>", {"from_encoding": "utf-8"}))
+    inputs.append(("bytes/from_encoding", (body % ("latin-1", "z")).encode("latin-1"), {"from_encoding": "latin-1"}))
+    inputs.append(("bytes/no-declaration", "<p>caf\xe9</p>".encode("utf-8"), {}))
+    extras = [("plain", {}), ("parse_only", {"parse_only": SoupStrainer(["p", "meta"])}),
+              ("element_classes", {"element_classes": {e["NS"]: e["cls"]["SubNS"]}}),
+              ("both", {"parse_only": SoupStrainer("p"), "element_classes": {e["Tag"]: e["Tag"]}})]
+    n = 0
+    for iname, markup, kw in inputs:
+        for xname, xkw in extras:
+            for cls in (BS, e["SubSoup"]):
+                s = cls(markup, "html.parser", **kw, **xkw)
+                case = {"op": "soupinfo", "input": iname, "options": xname, "class": cls.__name__}
+                fields = lambda x: (x.original_encoding, x.declared_html_encoding, x.contains_replacement_characters, x.is_xml,
+                                    x.known_xml, bool(x.element_classes), x.parse_only is not None)
+                for how in HOWS:
+                    reg = Reg()
+                    before = soup_tokens(reg, s)
+                    c = do_copy(s, how)
+                    after = soup_tokens(reg, c)
+                    n += 1
+                    ctx.case(("soupinfo", iname, xname, cls.__name__, how))
+                    batch.add(f"c12 soupinfo {before}", after, case | {"how": how},
+                              "Lean soupCopySelf and the fields of a copied BeautifulSoup disagree", "soupinfo")
+                    bad = []
+                    if type(c) is not type(s):
+                        bad.append(("class", type(s).__name__, type(c).__name__))
+                    if c.builder is not s.builder:
+                        bad.append(("the copy does not reuse the builder", "same object", "another"))
+                    if c.original_encoding != s.original_encoding or c.is_xml != s.is_xml or c.known_xml != s.known_xml:
+                        bad.append(("original_encoding / is_xml / known_xml", fields(s), fields(c)))
+                    bad += [(w, x, y) for w, x, y in oracle_copy(s, s, c)]
+                    if c.declared_html_encoding != s.declared_html_encoding:
+                        ctx.count("soupinfo:quirk-declared_html_encoding-not-carried-over")
+                    if c.contains_replacement_characters != s.contains_replacement_characters:
+                        ctx.count("soupinfo:quirk-contains_replacement_characters-not-carried-over")
+                    if (c.parse_only is None) != (s.parse_only is None):
+                        ctx.count("soupinfo:quirk-parse_only-dropped")
+                    if bool(c.element_classes) != bool(s.element_classes):
+                        ctx.count("soupinfo:quirk-element_classes-dropped")
+                    for w, x, y in bad:
+                        if not capped(ctx, "soupinfo"):
+                            ctx.violation(f"copy of a BeautifulSoup object: {w}", case=case | {"how": how}, expected=str(x)[:1000],
+                                          observed=str(y)[:1000], stream="soupinfo")
+                # pickling keeps the whole __dict__
+                if xname in ("plain", "parse_only"):
+                    p = pickle.loads(pickle.dumps(s))
+                    ctx.case(None)
+                    if fields(p) != fields(s) or p.builder is s.builder or type(p) is not type(s):
+                        if not capped(ctx, "soupinfo"):
+                            ctx.violation("pickling a BeautifulSoup object does not keep its document-level fields", case=case | {"how": "pickle"},
+                                          expected=str(fields(s)), observed=str(fields(p)), stream="soupinfo")
+    ctx.count("soupinfo:copies", n)
 
 
 def stream_settings(ctx):
@@ -1755,9 +2019,124 @@ def stream_settings(ctx):
                                 "alone and all together, x 3 ways of copying; all instance attributes compared")
 
 
-def reparse(soup):
-    """decode() + parse with an equally configured builder: what a pickle round trip is allowed to be"""
-    return type(soup)(soup.decode(), builder=pickle.loads(pickle.dumps(soup.builder)))
+def reparse(soup, config="default"):
+    """decode() + parse with an equally configured, new builder: what a pickle round trip is allowed to be.
+    (Not a pickled copy of soup.builder: after __setstate__ the builder of an unpickled document still points back to the
+    document — `builder.soup` is cleared by __init__ only — and pickling that builder on its own fails in __setstate__.)"""
+    return type(soup)(soup.decode(), builder=type(soup.builder)(**config_kwargs(config)))
+
+
+def pickle_oracle(soup, p, config="default"):
+    """the property for one pickle round trip soup -> p: p is what decode() + re-parse of the CURRENT tree gives, equal to
+    the original where no normalisation applies, consistently linked and independent"""
+    bad = []
+    ref = reparse(soup, config)
+    if not (p == ref) or not (ref == p) or p.decode() != ref.decode():
+        bad.append(("the unpickled document is not the re-parse of the rendering of the document that was pickled", ref.decode(), p.decode()))
+    d = shape_diff(shape(ref), shape(p))
+    if d:
+        bad.append(("the unpickled document differs from the re-parse in classes / attributes / settings", "same", d))
+    if ref == soup and not (p == soup):
+        bad.append(("the unpickled document is not equal to the original", "==", "!="))
+    if ref == soup and ref.decode() == soup.decode() and hash(p) != hash(soup):
+        bad.append(("the unpickled document hashes differently from the (normalisation-free) original", hash(soup), hash(p)))
+    wm, pm = mutable_objects(soup), mutable_objects(p)
+    common = [pm[k] for k in pm if k in wm]
+    if common:
+        bad.append(("the unpickled document shares objects with the original", "none", "; ".join(common[:3])))
+    pe = pointer_errors(p)
+    if pe:
+        bad.append(("the unpickled document is not consistently linked", "consistent", "; ".join(pe)))
+    return bad
+
+
+def run_pickle_history(ctx, recipe, steps, stream):
+    """generations of pickling interleaved with observations, edits and copies. Every round trip is judged against the tree
+    as it is at that moment (a document that came out of a pickle keeps the markup it was rebuilt from)."""
+    cur = build(recipe)
+    gen = 0
+    for si, st in enumerate(steps):
+        case = {"op": "pickle-history", "recipe": recipe, "steps": steps[:si + 1]}
+        kind = st[0]
+        try:
+            if kind == "observe":
+                observe(cur)
+            elif kind == "edit":
+                try:
+                    apply_op(cur, st[1], cur)
+                except RecursionError:
+                    raise
+                except Exception:
+                    pass
+            elif kind in ("copy", "copy-switch"):
+                c = do_copy(cur, st[1])
+                ctx.case(None)
+                ctx.count(f"pickle-history:copy-of-generation-{min(gen, 3)}")
+                for what, exp, obs in oracle_copy(cur, cur, c):
+                    ctx.count(f"{stream}:oracle-fails")
+                    if not capped(ctx, stream):
+                        ctx.violation(f"copy of a document of pickle generation {gen}: {what}", case=case, expected=str(exp)[:2000],
+                                      observed=str(obs)[:2000], stream=stream)
+                if kind == "copy-switch":
+                    cur = c
+            elif kind == "pickle":
+                if len(all_nodes(cur)) > 70:
+                    return
+                p = pickle.loads(pickle.dumps(cur))
+                gen += 1
+                ctx.case(("pickle-history", json.dumps(case, sort_keys=True, default=str)[-200:], si) if gen > 1 else None)
+                ctx.count(f"pickle-history:generation-{min(gen, 4)}")
+                for what, exp, obs in pickle_oracle(cur, p, recipe.get("config", "default")):
+                    ctx.count(f"{stream}:oracle-fails")
+                    if not capped(ctx, stream):
+                        ctx.violation(f"pickle generation {gen}: {what}", case=case, expected=str(exp)[:2000], observed=str(obs)[:2000],
+                                      stream=stream)
+                cur = p
+            elif kind == "pickle-element":
+                nodes = all_nodes(cur)
+                if len(nodes) < 2 or len(nodes) > 25:
+                    continue
+                el = nodes[1 + st[1] % (len(nodes) - 1)]
+                q = pickle.loads(pickle.dumps(el))
+                ctx.case(None)
+                ctx.count("pickle-history:element")
+                wm, qm = mutable_objects(cur), mutable_objects(q)
+                if (not (q == el) or type(q) is not type(el) or renderings(q) != renderings(el) or any(k in wm for k in qm)) \
+                        and not capped(ctx, stream):
+                    ctx.violation(f"an element of a document of pickle generation {gen}, unpickled, is not an independent equal of it",
+                                  case=case, expected=renderings(el)[0], observed=renderings(q)[0], stream=stream)
+        except RecursionError:
+            ctx.count("pickle:recursion (C11)")
+            return
+        except Exception as ex:
+            if not capped(ctx, stream):
+                ctx.violation(f"step {kind} of a pickle history raised", case=case, expected="no exception",
+                              observed=f"{type(ex).__name__}: {ex}", stream=stream)
+            return
+
+
+def stream_pickle_history(ctx, n):
+    for hi in range(n):
+        r = ctx.rng("pickle-history", hi)
+        recipe = gen_recipe(r)
+        steps = []
+        for g in range(r.choice((2, 2, 3, 4))):
+            if r.random() < 0.3:
+                steps.append(["observe"])
+            steps.append(["pickle"])
+            if r.random() < 0.5:
+                steps.append(["observe"])
+            for k in range(r.choice((0, 1, 1, 2, 3))):
+                steps.append(["edit", gen_edit(r, r.choice(EDIT_KINDS), 700 + 10 * g + k)])
+            j = r.random()
+            if j < 0.25:
+                steps.append(["copy", r.choice(HOWS)])
+            elif j < 0.4:
+                steps.append(["copy-switch", r.choice(HOWS)])
+            elif j < 0.5:
+                steps.append(["pickle-element", r.randrange(64)])
+        steps.append(["pickle"])
+        run_pickle_history(ctx, recipe, steps, "pickle-history")
 
 
 def stream_pickle(ctx, n_docs):
@@ -1784,7 +2163,7 @@ def stream_pickle(ctx, n_docs):
         ctx.case(("pickle", di))
         ctx.count("pickle:documents")
         try:
-            ref = reparse(soup)
+            ref = reparse(soup, recipe.get("config", "default"))
         except Exception as ex:
             ctx.count("pickle:reparse-raised-" + type(ex).__name__)
             continue
@@ -1864,6 +2243,8 @@ def run_case(ctx, batch, c, stream):
         check_edit(ctx, batch, c["recipe"], tuple(c["path"]), c["how"], c["side"], c["edit"], stream, -1, primed=c.get("primed", True))
     elif op == "eq":
         check_pool(ctx, batch, c["recipe"], c["pool"], tuple(c["seed"]), stream, -1)
+    elif op == "pickle-history":
+        run_pickle_history(ctx, c["recipe"], c["steps"], stream)
 
 
 def run(ctx: Ctx):
@@ -1876,7 +2257,8 @@ def run(ctx: Ctx):
                 "copies of the edited element, its parent and the root")
     ctx.assumptions = [
         "_event_stream(descendants) yields the balanced event list of the tree (C01/C02 chain invariant; compared on every receiver)",
-        "attribute values are str or list of str (type annotation _AttributeValue); raw int/float/bool/None values are the known finding",
+        "attribute values are str (any class), lists of str, int, bool or None; float by the oracle only; every dict was filled through its "
+        "own __setitem__ (tag[k] = v, Tag(attrs=...)) — dicts filled behind their back are compared with the model only",
         "builder-level setting objects (cdata_list_attributes, preserve_whitespace_tags, interesting_string_types, _namespaces) and a "
         "BeautifulSoup's TreeBuilder are shared by design and compared by value; parser_class, the attrs dict class and "
         "attribute_value_list_class are not kept by a copy (recorded quirk, modelled)",
@@ -1889,18 +2271,30 @@ def run(ctx: Ctx):
     ]
     E()
     batch = Batch(ctx)
-    stream_corpus(ctx, batch)
-    stream_nonstring(ctx)
-    stream_settings(ctx)
-    stream_small(ctx, batch, ctx.n(5, 6))
-    stream_random(ctx, batch, ctx.n(1200, 7000))
-    stream_pools(ctx, batch, ctx.n(250, 1600))
-    stream_pickle(ctx, ctx.n(400, 3000))
+    import traceback
+    streams = [("corpus", lambda: stream_corpus(ctx, batch)), ("nonstring-attr", lambda: stream_nonstring(ctx)),
+               ("setitem", lambda: stream_setitem(ctx, batch)), ("soupinfo", lambda: stream_soupinfo(ctx, batch)),
+               ("settings", lambda: stream_settings(ctx)), ("small-exhaustive", lambda: stream_small(ctx, batch, ctx.n(5, 6))),
+               ("copies", lambda: stream_random(ctx, batch, ctx.n(1000, 7000))),
+               ("equality", lambda: stream_pools(ctx, batch, ctx.n(250, 1600))),
+               ("pickle", lambda: stream_pickle(ctx, ctx.n(300, 3000))),
+               ("pickle-history", lambda: stream_pickle_history(ctx, ctx.n(250, 2500)))]
+    for name, fn in streams:
+        try:
+            fn()
+        except RecursionError:
+            raise
+        except Exception as ex:
+            # the real objects behaved in a way the check's own bookkeeping did not survive: a verdict, not a crash of the run
+            ctx.violation(f"the {name} stream could not go on: the implementation produced an object the check cannot even inspect",
+                          case={"op": "stream-error", "stream": name}, expected="inspectable objects",
+                          observed="".join(traceback.format_exception_only(type(ex), ex)).strip() + " @ " +
+                                   traceback.format_tb(ex.__traceback__)[-1].strip().replace("\n", " "), stream=name)
     batch.flush()
     if ctx.lean is not None and not ctx.lean.ok:
         ctx.notes.append("Lean obligations did not check; the generated tables describe the source of copy_self/__init__: the copies "
                          "stream (every setting x every element) is the search for a failing input")
-    ctx.notes.append("quirks observed and modelled: a copy holds an HTML/XMLAttributeDict, parser_class None, the stock "
+    ctx.notes.append("quirks observed and modelled: a copy has parser_class None, the stock "
                      "attribute_value_list_class, known_xml = the original's _is_xml; BeautifulSoup.copy_self takes the root data from "
                      "the builder; == ignores string classes, prefix, namespace and settings, so equal tags may render and hash "
                      "differently (only copies are claimed to hash alike)")
@@ -1940,10 +2334,16 @@ def replay(path):
                 return 1
         print("every instance attribute kept")
         return 0
+    if op == "pickle-history":
+        run_pickle_history(ctx, c["recipe"], c["steps"], "replay")
+        print("tree:", ascii(build(c["recipe"]).decode()), "steps:", c["steps"])
+        for w in ctx.violations:
+            print("FAIL:", w["what"], "| expected:", ascii(str(w["expected"])[:300]), "| observed:", ascii(str(w["observed"])[:300]))
+        return 1 if ctx.violations else 0
     if op == "pickle":
         soup = build(c["recipe"])
         p = pickle.loads(pickle.dumps(soup))
-        ref = reparse(soup)
+        ref = reparse(soup, c["recipe"].get("config", "default"))
         print("original :", ascii(soup.decode()))
         print("unpickled:", ascii(p.decode()))
         print("re-parse :", ascii(ref.decode()))
